@@ -511,35 +511,6 @@ Proof.
   apply N.eqb_eq in S1, S2. subst t i. congruence.
 Qed.
 
-Lemma filter_length_le : forall (A : Type) (p : A -> bool) l, (length (filter p l) <= length l)%nat.
-Proof. intros A p l; induction l as [|x r IH]; cbn; [lia|]. destruct (p x); cbn; lia. Qed.
-
-Lemma filter_none : forall (A : Type) (p : A -> bool) l, Forall (fun e => p e = false) l -> filter p l = [].
-Proof. intros A p l H; induction H as [|x r Hx _ IH]; cbn; [reflexivity|]. now rewrite Hx. Qed.
-
-(* the learner never restarts its replay beyond what the receiver has *)
-Lemma covered_count_le : forall c src K nd,
-  wf_source c src -> Inv c src K (n_cur nd) -> (covered_count c src nd <= K)%nat.
-Proof.
-  intros c src K nd Hwf [_ Hs]. unfold covered_count, synced_of in *.
-  destruct K as [|k]; cbn in Hs.
-  - rewrite Hs. lia.
-  - destruct Hs as (ek & o' & Hek & Hsy & Htk & Hik). rewrite Hsy.
-    rewrite <- (firstn_skipn (S k) src), filter_app, app_length.
-    assert (Hz : filter (fun e => s_index e <=? ss_index o') (skipn (S k) src) = []).
-    { apply filter_none. apply Forall_forall.
-      intros y Hy. apply In_nth_error in Hy. destruct Hy as [n Hn].
-      assert (Hl : length (firstn (S k) src) = S k).
-      { apply firstn_length_le. assert (nth_error src k <> None) by congruence.
-        apply nth_error_Some in H. lia. }
-      assert (Hy : nth_error src (S k + n) = Some y).
-      { rewrite <- Hn. rewrite <- (firstn_skipn (S k) src) at 1.
-        rewrite nth_error_app2 by lia. f_equal. lia. }
-      assert (src_lt ek y) as [H1 _] by (eapply sorted_nth_lt; [apply Hwf|eauto|eauto|lia]). lia. }
-    rewrite Hz. cbn [length]. pose proof (filter_length_le _ (fun e => s_index e <=? ss_index o') (firstn (S k) src)).
-    pose proof (firstn_le_length (S k) src). lia.
-Qed.
-
 (* ---------- the composed system ---------- *)
 
 Lemma step_mono_inv : forall nd o c, node_inv nd ->
@@ -595,78 +566,120 @@ Proof.
   replace (a + (b - a - 1))%nat with (b - 1)%nat in Hn by lia. exact Hn.
 Qed.
 
+Definition sender_ok (c : N) (src : list sentry) (K : nat) (nd : node) (sd : sender) : Prop :=
+  (sd_buf sd <= K)%nat /\ (sd_buf sd <= sd_next sd)%nat /\ (sd_next sd <= length src)%nat /\
+  (sd_snap sd <= K)%nat /\
+  ss_le (sd_state sd) (synced_of (n_cur nd) c).
+
 Definition sys_inv (c : N) (src : list sentry) (s : sys) : Prop :=
   exists K, recv_inv c src K (fst s) /\
-    (sd_buf (snd s) <= K)%nat /\ (sd_buf (snd s) <= sd_next (snd s))%nat /\ (sd_next (snd s) <= length src)%nat /\
-    ss_le (sd_state (snd s)) (synced_of (n_cur (fst s)) c).
+    sender_ok c src K (fst s) (fst (snd s)) /\ sender_ok c src K (fst s) (snd (snd s)).
 
 Lemma sys_inv_init : forall c src, sys_inv c src init_sys.
 Proof.
-  intros c src. exists 0%nat. cbn. repeat split; try lia.
-  - intros o Ho; discriminate.
+  intros c src. exists 0%nat. unfold sender_ok; cbn. repeat split; try lia; try exact I.
+  intros o Ho; discriminate.
 Qed.
 
-Ltac stay K HR := exists K; cbn [fst snd sd_buf sd_next sd_state]; split; [exact HR|repeat split; auto; try lia].
+(* the receiver moving on keeps a learner's bookkeeping valid *)
+Lemma sender_ok_mono : forall c src K K' nd nd' sd,
+  (K <= K')%nat -> ss_le (synced_of (n_cur nd) c) (synced_of (n_cur nd') c) ->
+  sender_ok c src K nd sd -> sender_ok c src K' nd' sd.
+Proof.
+  intros c src K K' nd nd' sd HK Hle (H1 & H2 & H3 & H4 & H5).
+  repeat split; try lia. eapply ss_le_trans; eauto.
+Qed.
+
+(* one learner's step: the receiver's invariant moves from K to some K' >= K, the learner stays valid *)
+Lemma learner_step_inv : forall c src K nd sd e nd' sd',
+  c <> 0 -> wf_source c src -> recv_inv c src K nd -> sender_ok c src K nd sd ->
+  learner_step c src nd sd e = (nd', sd') ->
+  exists K', (K <= K')%nat /\ recv_inv c src K' nd' /\ sender_ok c src K' nd' sd' /\
+    ss_le (synced_of (n_cur nd) c) (synced_of (n_cur nd') c).
+Proof.
+  intros c src K nd sd e nd' sd' Hc Hwf HR (HbK & Hbn & Hnl & Hsn & Hst) Heq.
+  pose proof HR as (Hn & Hp & Hd & HI). pose proof (Inv_K_le _ _ _ _ HI) as HKl.
+  assert (Same : forall sdx, sender_ok c src K nd sdx -> (nd, sdx) = (nd', sd') ->
+            exists K', (K <= K')%nat /\ recv_inv c src K' nd' /\ sender_ok c src K' nd' sd' /\
+                       ss_le (synced_of (n_cur nd) c) (synced_of (n_cur nd') c)).
+  { intros sdx H E. inversion E; subst. exists K. split; [lia|]. split; [exact HR|]. split; [exact H|apply ss_le_refl]. }
+  assert (Keep : sender_ok c src K nd sd) by (repeat split; auto).
+  destruct e as [w|w f|w|w|w fwd|w m|m f|m files f|w m|o]; cbn [learner_step] in Heq;
+    try (apply (Same sd Keep Heq)).
+  - (* EFeed *)
+    destruct (sd_next sd <? length src)%nat eqn:E; [|apply (Same sd Keep Heq)]. apply Nat.ltb_lt in E.
+    destruct (sd_fwd sd).
+    + eapply Same; [|exact Heq]. repeat split; cbn; auto; lia.
+    + destruct (pos_at src (S (sd_next sd))) as [[t i]|] eqn:EP; [|apply (Same sd Keep Heq)].
+      destruct (is_newer2 (sm_get c (r_synced (n_cur nd))) t i) eqn:EN; [|apply (Same sd Keep Heq)].
+      assert ((S (sd_next sd) <= K)%nat) by (eapply newer_covers; eauto).
+      eapply Same; [|exact Heq]. destruct (sd_buf sd =? sd_next sd)%nat eqn:EB; repeat split; cbn; auto; try lia.
+  - (* ESend *)
+    destruct (rev (slice src (sd_buf sd) (sd_next sd))) as [|lst r] eqn:ER; [apply (Same sd Keep Heq)|].
+    destruct (slice_last _ _ _ _ _ _ Hnl ER) as [Hlt Hlst].
+    destruct (is_newer2 (sd_state sd) (s_term lst) (s_index lst)) eqn:EN.
+    + assert (Hcov : (sd_next sd <= K)%nat).
+      { eapply (newer_covers c src K (n_cur nd) (sd_next sd) (s_term lst) (s_index lst)); eauto.
+        - destruct (sd_next sd) as [|n]; [lia|]. cbn. replace (S n - 1)%nat with n in Hlst by lia. now rewrite Hlst.
+        - eapply is_newer2_mono; eauto. }
+      eapply Same; [|exact Heq]. repeat split; cbn; auto; lia.
+    + assert (Hm := step_mono_inv nd (ORpc (map (fun x => (x, true)) (slice src (sd_buf sd) (sd_next sd)))) c Hn).
+      assert (HRb := recv_rpc_batch c src K nd (sd_buf sd) (sd_next sd) Hwf HR HbK HKl Hnl).
+      destruct f; [| |apply (Same sd Keep Heq)]; inversion Heq; subst; clear Heq;
+        (exists (Nat.max K (sd_next sd)); split; [lia|]; split; [exact HRb|]; split; [|exact Hm];
+         repeat split; cbn; try lia; eapply ss_le_trans; eauto).
+  - (* ELearnerSnapshot: only with the buffer drained *)
+    destruct (sd_buf sd =? sd_next sd)%nat eqn:E; [|apply (Same sd Keep Heq)].
+    apply Nat.eqb_eq in E. eapply Same; [|exact Heq]. repeat split; cbn; auto; lia.
+  - (* ELearnerRestart *)
+    eapply Same; [|exact Heq]. repeat split; cbn; auto; try lia. apply ss_le_refl.
+  - (* ESwitch *)
+    eapply Same; [|exact Heq]. repeat split; cbn; auto.
+  - (* ESnapCheck *)
+    destruct (pos_at src m) as [[t i]|] eqn:EP; [|apply (Same sd Keep Heq)].
+    destruct (is_newer2 (sm_get c (r_synced (n_cur nd))) t i && (sd_next sd <=? m)%nat) eqn:E; [|apply (Same sd Keep Heq)].
+    apply andb_true_iff in E. destruct E as [E1 E2].
+    assert ((m <= K)%nat) by (eapply newer_covers; eauto).
+    pose proof (pos_at_le _ _ _ _ EP). eapply Same; [|exact Heq]. repeat split; cbn; auto; lia.
+  - (* ESnapDone *)
+    destruct (pos_at src m) as [[t i]|] eqn:EP; [|apply (Same sd Keep Heq)].
+    destruct ((apply_status_rsp nd c t i =? 4) && (sd_buf sd =? sd_next sd)%nat && (sd_next sd <=? m)%nat) eqn:E;
+      [|apply (Same sd Keep Heq)].
+    apply andb_true_iff in E. destruct E as [E E3]. apply andb_true_iff in E. destruct E as [E1 E2].
+    apply N.eqb_eq in E1. assert ((m <= K)%nat) by (eapply success_covers; eauto).
+    pose proof (pos_at_le _ _ _ _ EP). eapply Same; [|exact Heq]. repeat split; cbn; auto; lia.
+Qed.
 
 Lemma sys_step_inv : forall c src s e,
   c <> 0 -> wf_source c src -> sys_inv c src s -> sys_inv c src (sys_step c src s e).
 Proof.
-  intros c src [nd sd] e Hc Hwf (K & HR & HbK & Hbn & Hnl & Hst). cbn [fst snd] in *.
-  pose proof HR as (Hn & Hp & Hd & HI). pose proof (Inv_K_le _ _ _ _ HI) as HKl.
-  destruct e as [|f|j|m|m f|m files f|m|o]; cbn [sys_step].
-  - (* EFeed *)
-    destruct (sd_next sd <? length src)%nat eqn:E; [|stay K HR].
-    apply Nat.ltb_lt in E. stay K HR.
-  - (* ESend *)
-    destruct (rev (slice src (sd_buf sd) (sd_next sd))) as [|lst r] eqn:ER; [stay K HR|].
-    destruct (slice_last _ _ _ _ _ _ Hnl ER) as [Hlt Hlst].
-    destruct (is_newer2 (sd_state sd) (s_term lst) (s_index lst)) eqn:EN.
-    + (* the remote position fetched earlier already covers the batch: nothing is sent *)
-      assert (Hcov : (sd_next sd <= K)%nat).
-      { eapply (newer_covers c src K (n_cur nd) (sd_next sd) (s_term lst) (s_index lst)); eauto.
-        - destruct (sd_next sd) as [|n]; [lia|]. cbn. replace (S n - 1)%nat with n in Hlst by lia. now rewrite Hlst.
-        - eapply is_newer2_mono; eauto. }
-      stay K HR.
-    + destruct f.
-      * exists (Nat.max K (sd_next sd)). cbn [fst snd sd_buf sd_next sd_state].
-        split; [now apply recv_rpc_batch|]. repeat split; try lia.
-        eapply ss_le_trans; [exact Hst|]. now apply step_mono_inv.
-      * exists (Nat.max K (sd_next sd)). cbn [fst snd].
-        split; [now apply recv_rpc_batch|]. repeat split; try lia.
-        eapply ss_le_trans; [exact Hst|]. now apply step_mono_inv.
-      * exists K. cbn; auto 10.
-  - (* ESenderRestart *)
-    destruct (j <=? covered_count c src nd)%nat eqn:E; [|stay K HR].
-    apply Nat.leb_le in E. pose proof (covered_count_le c src K nd Hwf HI).
-    exists K; cbn [fst snd sd_buf sd_next sd_state]; split; [exact HR|repeat split; auto; try lia; apply ss_le_refl].
-  - (* ESnapCheck *)
-    destruct (pos_at src m) as [[t i]|] eqn:EP; [|stay K HR].
-    destruct (is_newer2 (sm_get c (r_synced (n_cur nd))) t i && (sd_next sd <=? m)%nat) eqn:E; [|stay K HR].
-    apply andb_true_iff in E. destruct E as [E1 E2].
-    assert ((m <= K)%nat) by (eapply newer_covers; eauto).
-    pose proof (pos_at_le _ _ _ _ EP). stay K HR.
-  - (* ENotifyTransfer *)
-    destruct (pos_at src m) as [[t i]|] eqn:EP; [|stay K HR].
-    destruct f; try (stay K HR; fail);
-      (exists K; cbn [fst snd]; split; [now apply recv_xfer|]; repeat split; auto;
-       eapply ss_le_trans; [exact Hst|]; now apply step_mono_inv).
-  - (* ENotifyApply *)
-    destruct (pos_at src m) as [[t i]|] eqn:EP; [|stay K HR].
-    destruct f; try (stay K HR; fail);
-      (destruct (recv_snap_apply c src K nd m t i files Hwf HR EP) as (K' & H1 & H2 & HR');
-       exists K'; cbn [fst snd]; split; [exact HR'|]; repeat split; auto; try lia;
-       eapply ss_le_trans; [exact Hst|]; now apply step_mono_inv).
-  - (* ESnapDone *)
-    destruct (pos_at src m) as [[t i]|] eqn:EP; [|stay K HR].
-    destruct ((apply_status_rsp nd c t i =? 4) && (sd_buf sd =? sd_next sd)%nat && (sd_next sd <=? m)%nat) eqn:E;
-      [|stay K HR].
-    apply andb_true_iff in E. destruct E as [E E3]. apply andb_true_iff in E. destruct E as [E1 E2].
-    apply N.eqb_eq in E1. assert ((m <= K)%nat) by (eapply success_covers; eauto).
-    pose proof (pos_at_le _ _ _ _ EP). stay K HR.
-  - (* ERecv *)
-    destruct (recv_event_ok o) eqn:E; [|stay K HR].
-    exists K. cbn [fst snd]. split; [now apply recv_own_event|]. repeat split; auto.
-    eapply ss_le_trans; [exact Hst|]. now apply step_mono_inv.
+  intros c src [nd [s1 s2]] e Hc Hwf (K & HR & H1 & H2). cbn [fst snd] in *.
+  pose proof HR as (Hn & Hp & Hd & HI).
+  unfold sys_step. destruct (ev_learner e) as [w|] eqn:EL.
+  - destruct w; cbn [get_sd set_sd fst snd].
+    + destruct (learner_step c src nd s1 e) as [nd' sd'] eqn:EQ.
+      destruct (learner_step_inv c src K nd s1 e nd' sd' Hc Hwf HR H1 EQ) as (K' & HK & HR' & HS' & Hm).
+      exists K'. cbn [fst snd]. split; [exact HR'|]. split; [exact HS'|]. eapply sender_ok_mono; eauto.
+    + destruct (learner_step c src nd s2 e) as [nd' sd'] eqn:EQ.
+      destruct (learner_step_inv c src K nd s2 e nd' sd' Hc Hwf HR H2 EQ) as (K' & HK & HR' & HS' & Hm).
+      exists K'. cbn [fst snd]. split; [exact HR'|]. split; [eapply sender_ok_mono; eauto|exact HS'].
+  - assert (Same : sys_inv c src (nd, (s1, s2))) by (exists K; auto).
+    destruct e as [w|w f|w|w|w fwd|w m|m f|m files f|w m|o]; cbn in EL; try discriminate.
+    + (* ENotifyTransfer *)
+      destruct (pos_at src m) as [[t i]|] eqn:EP; [|exact Same].
+      assert (Hm := step_mono_inv nd (OSnapRpc (OXfer c t i)) c Hn).
+      destruct f; try exact Same;
+        (exists K; cbn [fst snd]; split; [now apply recv_xfer|]; split; eapply sender_ok_mono; eauto).
+    + (* ENotifyApply *)
+      destruct (pos_at src m) as [[t i]|] eqn:EP; [|exact Same].
+      destruct f; try exact Same;
+        (destruct (recv_snap_apply c src K nd m t i files Hwf HR EP) as (K' & HK1 & HK2 & HR');
+         match goal with |- context [step nd ?o] => assert (Hm := step_mono_inv nd o c Hn) end;
+         exists K'; cbn [fst snd]; split; [exact HR'|]; split; eapply sender_ok_mono; eauto).
+    + (* ERecv *)
+      destruct (recv_event_ok o) eqn:E; [|exact Same].
+      assert (Hm := step_mono_inv nd o c Hn).
+      exists K. cbn [fst snd]. split; [now apply recv_own_event|]. split; eapply sender_ok_mono; eauto.
 Qed.
 
 Lemma sys_run_inv : forall c src evs, c <> 0 -> wf_source c src -> sys_inv c src (sys_run c src evs).
@@ -676,18 +689,34 @@ Proof.
   rewrite fold_left_app. cbn. now apply sys_step_inv.
 Qed.
 
-(* SAFETY of the composed system.  Whatever the interleaving of the learner feeding and sending, lost requests and
-   lost responses, learner restarts, snapshot hand-over steps with or without the checkpoint, receiver snapshots,
-   crashes, local writes and status time-outs: the data replicated from the source is exactly its first K entries,
-   each once and in order, the recorded position is the K-th entry's, and everything the sender regards as done lies
-   within those K entries.  In particular the position never covers an entry whose data is missing. *)
+(* SAFETY of the composed system.  Two learners of the source (each forwarding or stand-by, roles switched at any
+   time), feeding and sending, lost requests and lost responses, learner snapshots and restarts, snapshot hand-over
+   steps with or without the checkpoint, receiver snapshots, crashes, local writes and status time-outs, in ANY
+   interleaving: the data replicated from the source is exactly its first K entries, each once and in order, the
+   recorded position is the K-th entry's, and for BOTH learners everything they regard as done, and the point from
+   which they would replay after a restart, lie within those K entries. *)
 Theorem sender_safety : forall c src evs,
   c <> 0 -> wf_source c src ->
   exists K,
     proj c (r_journal (n_cur (fst (sys_run c src evs)))) = map s_payload (firstn K src) /\
     synced_at src K (synced_of (n_cur (fst (sys_run c src evs))) c) /\
-    (sd_buf (snd (sys_run c src evs)) <= K)%nat.
+    (sd_buf (fst (snd (sys_run c src evs))) <= K)%nat /\ (sd_snap (fst (snd (sys_run c src evs))) <= K)%nat /\
+    (sd_buf (snd (snd (sys_run c src evs))) <= K)%nat /\ (sd_snap (snd (snd (sys_run c src evs))) <= K)%nat.
 Proof.
-  intros c src evs Hc Hwf. destruct (sys_run_inv c src evs Hc Hwf) as (K & (_ & _ & _ & [Hj Hs]) & Hb & _).
-  exists K. auto.
+  intros c src evs Hc Hwf.
+  destruct (sys_run_inv c src evs Hc Hwf) as (K & (_ & _ & _ & [Hj Hs]) & (A1 & _ & _ & A4 & _) & (B1 & _ & _ & B4 & _)).
+  exists K. auto 10.
 Qed.
+
+(* a learner snapshot taken WITH a backlog (GetSnapshot swallowing its time-out) breaks it: the learner restarts behind
+   entries that were never sent, the receiver accepts the later ones over the gap *)
+Definition loose_src : list sentry := [mkS 1 1 1 1001 10; mkS 1 1 2 1002 20; mkS 1 1 3 1003 30].
+Definition loose_evs : list ev :=
+  [EFeed true; ESend true FNone; EFeed true; ESend true FReqLost; ELearnerSnapshot true; ELearnerRestart true;
+   EFeed true; ESend true FNone].
+
+Lemma learner_snapshot_with_backlog_refuted :
+  r_journal (n_cur (fst (sys_run_loose 1 loose_src loose_evs))) = [(1, 10); (1, 30)] /\
+  synced_of (n_cur (fst (sys_run_loose 1 loose_src loose_evs))) 1 = Some (mkSS 1 3 1003) /\
+  r_journal (n_cur (fst (sys_run 1 loose_src loose_evs))) = [(1, 10); (1, 20)].
+Proof. vm_compute. repeat split; reflexivity. Qed.
